@@ -335,11 +335,39 @@ void TreeGraphImpl<GraphImpl>::rootAt(Graph::NodeId newRoot)
   if (!isValid())
     throw Exception("TreeGraphImpl::rootAt: Tree is not Valid.");
 
+  const bool wasUnrooted = !GraphImpl::isDirected();
   GraphImpl::makeDirected();
   // set the new root on the Graph
   GraphImpl::setRoot(newRoot);
-  // change edge direction between the new node and the former one
-  propagateDirection_(newRoot);
+  if (wasUnrooted)
+  {
+    // makeDirected() orients every edge from its lower to its higher node
+    // id, which is not a rooted tree in general: orient all edges away from
+    // the new root instead
+    std::vector<std::pair<Graph::NodeId, Graph::NodeId>> toVisit(1, std::make_pair(newRoot, newRoot)); // (node, where we come from)
+    while (!toVisit.empty())
+    {
+      const Graph::NodeId node = toVisit.back().first;
+      const Graph::NodeId origin = toVisit.back().second;
+      toVisit.pop_back();
+      const std::vector<Graph::NodeId> incomers = GraphImpl::getIncomingNeighbors(node);
+      for (auto incomer : incomers)
+      {
+        if (incomer != origin)
+          GraphImpl::switchNodes(incomer, node);
+      }
+      const std::vector<Graph::NodeId> sons = GraphImpl::getOutgoingNeighbors(node);
+      for (auto son : sons)
+      {
+        toVisit.push_back(std::make_pair(son, node));
+      }
+    }
+  }
+  else
+  {
+    // change edge direction between the new node and the former one
+    propagateDirection_(newRoot);
+  }
 }
 
 template<class GraphImpl>
